@@ -78,7 +78,7 @@ ssize_t __wrap_recv(int fd, void *buf, size_t len, int flags)
 int __wrap_usleep(unsigned usec)
 {
 	if (t_task < 0) return 0;
-	sim_sleep((int64_t)usec * 1000);
+	sim_retry_wait((int64_t)usec * 1000);
 	return 0;
 }
 
